@@ -21,6 +21,7 @@ def main():
     if '--props' in sys.argv:
         props = sys.argv[sys.argv.index('--props') + 1].split(',')
     skip_confirm = '--skip-confirm' in sys.argv
+    onlys = sys.argv[sys.argv.index('--only') + 1].split(',') if '--only' in sys.argv else None   # one case-id regex per property of --props ('' = full run)
     ks = sys.argv[sys.argv.index('--as') + 1] if '--as' in sys.argv else k   # number under which the seed is stored in /verif/seeded
     wt = '/tmp/seed/%s' % pid
     out = '%s/out' % wt
@@ -92,10 +93,13 @@ def main():
     for p in (props or [pid]):
         env = dict(os.environ, VERIF_REPO=run + '/repo', VERIF_OUT=run, VERIF_JOBS=os.environ.get('VERIF_JOBS', '8'))
         t0 = time.time()
-        rc, o = sh('./vcheck %s --tier quick' % p, cwd=V, timeout=3000, env=env)
+        only = (onlys[(props or [pid]).index(p)] if onlys and (props or [pid]).index(p) < len(onlys) else '') or None
+        rc, o = sh('./vcheck %s --tier quick%s' % (p, (" --only '%s'" % only) if only else ''), cwd=V, timeout=3000, env=env)
         lines = [l for l in o.splitlines() if l.startswith('VIOLATION') or l.startswith(p + ' quick') or l.startswith('BROKEN') or l.startswith('INCONCLUSIVE') or l.startswith('ENCODING')]
         det[p] = {'rc': rc, 'violations': sum(1 for l in lines if l.startswith('VIOLATION')), 'summary': [l for l in lines if not l.startswith('VIOLATION')][:4], 'first': [l for l in lines if l.startswith('VIOLATION')][:3], 'wall_s': round(time.time() - t0)}
-        rec['ran'].append('VERIF_REPO=<patched copy of /repo> ./vcheck %s --tier quick -> rc=%d, %d VIOLATION lines' % (p, rc, det[p]['violations']))
+        if only:
+            det[p]['only'] = only
+        rec['ran'].append('VERIF_REPO=<patched copy of /repo> ./vcheck %s --tier quick%s -> rc=%d, %d VIOLATION lines' % (p, (" --only '%s'" % only) if only else '', rc, det[p]['violations']))
     rec['detection'] = det
     rec['detected_by'] = sorted(p for p in det if det[p]['rc'] == 1 and det[p]['violations'] > 0)
     json.dump(rec, open(sd + '/meta.json', 'w'), indent=1)
